@@ -19,6 +19,9 @@ induction over the mutually recursive AST, no size bound:
 * T3 `compile_end_ip_pos`: the operand of every `Iterate` is positive.
 * T5 `compile_meets_optimize_hypotheses`: every compiled chunk satisfies the three hypotheses of the
   optimiser theorems of Props/C09.lean, so those apply to every program.
+* T6 `compile_imperative_agrees`: the transcription of compiler.rs as a mutable pass with
+  back-patched placeholders (Model/CompilerImp.lean) computes exactly the functional model and reaches
+  none of the `unreachable!()` sites.
 * T4 `compile_deterministic_up_to_kwarg_order`: reordering every kwargs map (the `HashMap` iteration
   order of `compile_kwargs`) changes neither the outcome class, nor the chunk sizes, nor the tables.
 
@@ -28,6 +31,7 @@ reproduce the real pre-optimisation listing of every chunk and the call tables).
 import TeraModel.Lemmas.CompilerOpOf
 import TeraModel.Lemmas.CompilerKwOrder
 import TeraModel.Lemmas.CompilerOptHyps
+import TeraModel.Lemmas.CompilerImpEq
 import TeraModel.Props.C09
 import TeraModel.Props.C07
 namespace Tera.C07Compile
@@ -355,6 +359,35 @@ theorem compile_meets_optimize_hypotheses (t : Template) (c : Compiled)
       obtain ⟨body, rfl⟩ := this
       exact key _
     · exact key _
+
+/-! ## T6: the mutable pass of compiler.rs and the functional model agree -/
+
+/-- **T6** `compile_imperative_agrees`.  Model/CompilerImp.lean transcribes compiler.rs as the
+mutable pass it is: `chunk.add`, the `processing_bodies` stack, placeholders `Jump(0)` /
+`PopJumpIfFalse(0)` / `JumpIf…OrPop(0)` / `Iterate(0)` patched later through `get_mut`, `end_branch`,
+`compile_block` swapping the chunk, every `unreachable!()` / `unwrap()` an `.error` outcome.  For
+every scoped node list (the body of a template, the body of a component definition), started from
+`Compiler::new`, that pass
+* returns (`.ok`): none of the panic sites compiler.rs:289, 297, 386, 403, 409, 452, 569, 572, 591 is
+  reached;
+* leaves exactly the chunk `nodesCode 0 none ns` of the functional model (every placeholder patched
+  to the operand the functional model writes directly) and exactly its events (blocks with their
+  chunks, call sites), with `processing_bodies` empty and `block_depth` 0 again.
+So T1–T5, proved about the functional model, are theorems about the transcription of the Rust. -/
+theorem compile_imperative_agrees (ns : List Node) (h : nodesScoped false ns = true) :
+    Imp.compileNodes ns Imp.Comp.new
+      = .ok { chunk := nodesCode 0 none ns, bodies := [], events := nodesEvents false 0 ns, depth := 0 } :=
+  Imp.imp_eq_scoped ns h
+
+/-- the same for a whole template: body and every component body -/
+theorem compile_imperative_agrees_template (t : Template) (hs : templateScoped t = true) :
+    Imp.compileNodes t.nodes Imp.Comp.new
+        = .ok { chunk := nodesCode 0 none t.nodes, bodies := [], events := bodyEvents t, depth := 0 } ∧
+    ∀ cd ∈ t.componentDefinitions,
+      Imp.compileNodes cd.body Imp.Comp.new
+        = .ok { chunk := nodesCode 0 none cd.body, bodies := [], events := componentEvents cd, depth := 0 } := by
+  simp only [templateScoped, Bool.and_eq_true, List.all_eq_true] at hs
+  exact ⟨Imp.imp_eq_scoped t.nodes hs.1, fun cd hcd => Imp.imp_eq_scoped cd.body (hs.2 cd hcd).1⟩
 
 /-! ## The hypotheses are satisfiable, and needed (spot checks; the stage diff runs the model on
 every real AST) -/
